@@ -25,9 +25,10 @@ VARIABLES clock,      \* simulator time
           about,      \* the event taken off the list, announced, about to run (0: none)
           lastTs,     \* stamp of the last notification (-1: none)
           ended,      \* the replication has ended
+          step,       \* 0: no step() in progress; 1: step() has fired START and has not executed its event; 2: it has
           executed,   \* history: ids in execution order
           op
-vars == <<clock, ev, pending, run, bound, incl, win, about, lastTs, ended, executed, op>>
+vars == <<clock, ev, pending, run, bound, incl, win, about, lastTs, ended, step, executed, op>>
 
 NoWin == [ty |-> "none", ts |-> -1]
 Less(i, j) == \/ ev[i].t < ev[j].t
@@ -39,7 +40,7 @@ HasNext == pending # {} /\ Within(First(pending))
 
 Init == /\ clock = 0 /\ ev = <<[t |-> WarmT, p |-> 10, w |-> TRUE]>> /\ pending = {1}
         /\ run = FALSE /\ bound = 0 /\ incl = TRUE /\ win = NoWin /\ about = 0 /\ lastTs = -1
-        /\ ended = FALSE /\ executed = <<>> /\ op = [a |-> "Init"]
+        /\ ended = FALSE /\ step = 0 /\ executed = <<>> /\ op = [a |-> "Init"]
 
 (* construct_model, a handler, or a listener inside a notification schedules relative to the simulator time *)
 Sched(by, d, p) ==
@@ -50,37 +51,53 @@ Sched(by, d, p) ==
     /\ ev' = Append(ev, [t |-> clock + d, p |-> p, w |-> FALSE])
     /\ pending' = pending \cup {Len(ev) + 1}
     /\ op' = [a |-> "Sched", by |-> by, d |-> d, p |-> p, t |-> clock + d, id |-> Len(ev) + 1]
-    /\ UNCHANGED <<clock, run, bound, incl, win, about, lastTs, ended, executed>>
+    /\ UNCHANGED <<clock, run, bound, incl, win, about, lastTs, ended, step, executed>>
 
 (* a listener cancels a pending event (the event about to run is no longer on the list: it runs all the same) *)
 Cancel(e) ==
     /\ win.ty # "none" /\ e \in pending /\ ~ev[e].w
     /\ pending' = pending \ {e}
     /\ op' = [a |-> "Cancel", id |-> e]
-    /\ UNCHANGED <<clock, ev, run, bound, incl, win, about, lastTs, ended, executed>>
+    /\ UNCHANGED <<clock, ev, run, bound, incl, win, about, lastTs, ended, step, executed>>
 
 StartSeg(b, inc) ==
     /\ ~run /\ ~ended /\ clock < EndT /\ b >= clock /\ b <= EndT
     /\ run' = TRUE /\ bound' = b /\ incl' = inc
     /\ win' = [ty |-> "START", ts |-> clock] /\ lastTs' = clock
     /\ op' = [a |-> "Start", ts |-> clock, b |-> b, inc |-> inc]
+    /\ UNCHANGED <<clock, ev, pending, about, ended, step, executed>>
+
+(* step(): START, at most one event (taken off the list BEFORE its time is announced, like the run loop does, and announced *)
+(* whether or not the time changes), STOP at the clock; the clock does not move to any bound and the replication never ends *)
+StepSeg ==
+    /\ ~run /\ ~ended /\ clock < EndT
+    /\ run' = TRUE /\ bound' = EndT /\ incl' = TRUE /\ step' = 1
+    /\ win' = [ty |-> "START", ts |-> clock] /\ lastTs' = clock
+    /\ op' = [a |-> "StepStart", ts |-> clock]
     /\ UNCHANGED <<clock, ev, pending, about, ended, executed>>
+
+StepEnd ==
+    /\ run /\ about = 0 /\ (step = 2 \/ (step = 1 /\ ~HasNext))
+    /\ run' = FALSE /\ step' = 0
+    /\ win' = [ty |-> "STOP", ts |-> clock] /\ lastTs' = clock
+    /\ op' = [a |-> "Stop", ts |-> clock]
+    /\ UNCHANGED <<clock, ev, pending, bound, incl, about, ended, executed>>
 
 (* the loop takes the first event within the bound; its time differs from the clock: the clock is moved, TIME_CHANGED announced *)
 Announce ==
-    /\ run /\ about = 0 /\ HasNext
+    /\ run /\ about = 0 /\ HasNext /\ step # 2
     /\ LET m == First(pending) IN
-         /\ ev[m].t # clock
+         /\ (ev[m].t # clock \/ step = 1)
          /\ about' = m /\ pending' = pending \ {m}
          /\ clock' = ev[m].t
          /\ win' = [ty |-> "TC", ts |-> ev[m].t] /\ lastTs' = ev[m].t
          /\ op' = [a |-> "TC", ts |-> ev[m].t]
-    /\ UNCHANGED <<ev, run, bound, incl, ended, executed>>
+    /\ UNCHANGED <<ev, run, bound, incl, ended, step, executed>>
 
 Exec ==
-    /\ run
+    /\ run /\ step # 2
     /\ \/ about # 0
-       \/ about = 0 /\ HasNext /\ ev[First(pending)].t = clock
+       \/ about = 0 /\ step = 0 /\ HasNext /\ ev[First(pending)].t = clock
     /\ LET m == IF about # 0 THEN about ELSE First(pending) IN
          /\ clock' = ev[m].t
          /\ pending' = pending \ {m}
@@ -88,22 +105,23 @@ Exec ==
          /\ win' = IF ev[m].w THEN [ty |-> "WARMUP", ts |-> ev[m].t] ELSE NoWin
          /\ lastTs' = IF ev[m].w THEN ev[m].t ELSE lastTs
          /\ op' = [a |-> "Exec", id |-> m, clk |-> ev[m].t]
-    /\ about' = 0
+    /\ about' = 0 /\ step' = IF step = 1 THEN 2 ELSE step
     /\ UNCHANGED <<ev, run, bound, incl, ended>>
 
 (* nothing (more) within the bound: the clock moves to the bound, then STOP is fired with the new time *)
 SegEnd ==
-    /\ run /\ about = 0 /\ ~HasNext
+    /\ run /\ step = 0 /\ about = 0 /\ ~HasNext
     /\ clock' = IF bound > clock THEN bound ELSE clock
     /\ run' = FALSE /\ ended' = (bound >= EndT)
     /\ LET ts == IF StampLag THEN clock ELSE clock' IN
          /\ win' = [ty |-> "STOP", ts |-> ts] /\ lastTs' = ts
          /\ op' = [a |-> "Stop", ts |-> ts]
-    /\ UNCHANGED <<ev, pending, bound, incl, about, executed>>
+    /\ UNCHANGED <<ev, pending, bound, incl, about, step, executed>>
 
 Next == \/ \E by \in {"init", "handler", "listener"}, d \in Delays, p \in Prios : Sched(by, d, p)
         \/ \E e \in pending : Cancel(e)
         \/ \E b \in Bounds \cup {EndT}, inc \in BOOLEAN : StartSeg(b, inc)
+        \/ StepSeg \/ StepEnd
         \/ Announce \/ Exec \/ SegEnd
 Spec == Init /\ [][Next]_vars
 
@@ -117,5 +135,7 @@ ExactlyOnce == \A i, j \in 1..Len(executed) : executed[i] = executed[j] => i = j
 ExecutedInOrder == \A i \in 1..Len(executed) - 1 : ev[executed[i]].t <= ev[executed[i + 1]].t
 NeverBeyondEnd == clock <= EndT
 (* at quiescence between segments nothing within the bound just reached is left behind *)
-SegmentComplete == (~run /\ op.a = "Stop") => \A i \in pending : ~(ev[i].t < bound \/ (ev[i].t = bound /\ incl))
+StepIsOneEvent == [][(step = 2 /\ step' = 2) => executed' = executed]_vars
+SegmentComplete == (~run /\ op.a = "Stop" /\ (ended \/ bound < EndT)) =>        \* (after a step() the bound is EndT and nothing has ended)
+                   \A i \in pending : ~(ev[i].t < bound \/ (ev[i].t = bound /\ incl))
 =============================================================================
